@@ -276,6 +276,16 @@ def oracle(r):
         bad.append(("C15:callbacks-order", f"registered {regs} (callbacks registering callbacks: "
                     f"{[(o[1], o[3]) for o in log if o[0] == 'Reg' and len(o) > 3 and o[3]]}), ran in order {tds}, "
                     f"LIFO order is {expect}"))
+    crashed_run = "Crash" in kinds
+    if not crashed_run:
+        # a callback that hands back an awaitable has finished only when that has been awaited, which happens
+        # before the next callback is called (under the cancellation a crash brings, it is cut short instead)
+        for i, o in enumerate(log):
+            if o[0] == "Td" and o[1] % 3 == 2:
+                nxt = log[i + 1] if i + 1 < len(log) else None
+                if nxt != ["TdDone", o[1]]:
+                    bad.append(("C15:awaitable-not-awaited", f"teardown callback {o[1]} returned an awaitable that was not "
+                                f"awaited before the teardown went on (next: {nxt})"))
     first_td = kinds.index("Td") if "Td" in kinds else len(kinds)
     if any(k in HIST for k in kinds[first_td:]):
         bad.append(("C15:teardown-early", f"the application's code was still acting after the teardown had begun: {kinds}"))
@@ -353,6 +363,32 @@ def collect(ck, n):
     return [r for r in out if "crash" not in r]
 
 
+def check_fixed(ck):
+    """a service task whose cleanup raises while the root teardown cancels it: the exception comes out of
+    run_application whatever the application was about to return, after the full teardown"""
+    n = 0
+    tree = {"prepare": [["Reg", 0, True, []]], "start": [["Svc", 0, "raise_on_cancel"], ["Reg", 1, False, []]],
+            "children": [{"prepare": [["Reg", 3, True, []]], "start": [["Svc", 1], ["Reg", 4, False, []]], "children": []}]}
+    for be in ("asyncio", "trio"):
+        for cli, after, ending in ((True, [], ["Return", "none", 0]), (True, [], ["Return", "int", 3]),
+                                   (False, [["Sig", "TERM"]], []), (False, [["Sig", "INT"]], [])):
+            case = {"backend": be, "cli": cli, "tree": tree, "after": after, "ending": ending, "timeout": 30}
+            r = ck.run_impl("impl_run.py", [{"cases": [case]}])[0]
+            rr = r["results"][0] if "results" in r else {"crash": r}
+            n += 1
+            if "crash" in rr:
+                ck.broke("impl-runner-crash", rr)
+                continue
+            out = rr["outcome"]
+            tds = [o[1] for o in rr["log"] if o[0] == "Td"]
+            if not ("raised" in out and {"crash": 0} in leaves(out["raised"])):
+                ck.fail_input("C15:crash-at-teardown-vanished", f"service task 0 raised while the root teardown cancelled it; "
+                              f"run_application ended with {out}", replay_obj(dict(rr, timeout=30)))
+            elif tds != [1, 4, 3, 0]:
+                ck.fail_input("C15:callbacks-order", f"registered [0, 3, 4, 1], ran {tds}", replay_obj(dict(rr, timeout=30)))
+    return n
+
+
 def replay_obj(r):
     return {k: r.get(k) for k in ("backend", "cli", "tree", "after", "ending", "timeout", "log", "outcome")}
 
@@ -379,6 +415,7 @@ def run(ck: Check):
     for i in bad[:10]:
         if not oracle(results[i]):
             ck.broke("correspondence", replay_obj(results[i]))
+    nfixed = check_fixed(ck)
     dist = {"cli": 0, "outcomes": {}, "startup_fault": {}, "run_result_kinds": {}, "callbacks": 0, "service_tasks": 0,
             "components": 0, "signal_after_startup_cli": 0}
     for r in results:
@@ -417,6 +454,7 @@ def run(ck: Check):
         "mismatches": len(bad),
         "input_distribution": dist,
         "oracle_failures": n_fail,
+        "fixed_scenarios": nfixed,
         "partial_clauses": ["teardown callbacks that raise during the runner's teardown, a second termination signal and "
                             "several causes of death in one startup are not modelled"],
     })
